@@ -205,7 +205,7 @@ def make_scenario(rng, sid, A, variant, nsteps=1, cplx0=False, law=None):
         for st in steps:
             if st.get("as") is None and st.get("scale") is None:
                 st["offlink"] = 7.5 * rscale
-    return {"id": sid, "adjacency": A, "ctor": "adjacency" if variant % 2 else "implicit",
+    return {"id": sid, "adjacency": A, "ctor": "edge_list" if variant % 8 == 6 else ("adjacency" if variant % 2 else "implicit"),
             "steps": steps, "primes": primes, "orders": orders, "law": law}
 
 
@@ -465,7 +465,11 @@ def run_scenario(scen, rec=None):
     try:
         passed = lib_input(scen["steps"][0], A)
         with quiet():
-            if scen.get("ctor") == "adjacency":
+            if scen.get("ctor") == "edge_list":
+                # the documented `edge_list` keyword, every link named once (i < j): the circuit is the same network
+                el = np.array([(i, j) for i in range(len(A)) for j in range(i + 1, len(A)) if A[i][j]], dtype=int).reshape(-1, 2)
+                net = ResNetwork(passed, edge_list=el, silence_level=3)
+            elif scen.get("ctor") == "adjacency":
                 net = ResNetwork(passed, adjacency=np.array(A, dtype=np.int8), silence_level=3)
             else:
                 net = ResNetwork(passed, silence_level=3)
